@@ -1,7 +1,7 @@
 (* C03 (xfab.tools) - every orientation parametrisation yields a proper rotation equal to the documented composition;
    Rodrigues maps invert.  Definitions tools_* are regenerated from /repo/xfab/tools.py on every run. *)
 From Coq Require Import Reals.
-From XV Require Import RealLib Mat3 Atan2 Gen_laue Gen_tools P03_laue P03_tools.
+From XV Require Import RealLib Mat3 Atan2 Gen_laue Gen_tools P03_laue P03_tools P03_euler.
 Open Scope R_scope.
 
 Theorem C03_tools_euler_is_RzRxRz : forall p1 P p2, tools_euler_to_u p1 P p2 = mmul (Rz p1) (mmul (Rx P) (Rz p2)).
@@ -51,3 +51,19 @@ Print Assumptions C03_tools_u_to_rod_inverts.
 Theorem C03_tools_rod_to_u_inverts : forall U r, is_rot U -> tools_u_to_rod U = Some r -> tools_rod_to_u r = U.
 Proof. exact tools_rod_to_u_inv. Qed.
 Print Assumptions C03_tools_rod_to_u_inverts.
+
+(* u_to_euler: range of the returned angles; exact inverse of euler_to_u outside the code's own tolerance bands
+   (not_gimbal: PHI and pi - PHI at least 1e-8; generic: neither argument of _arctan2 below 1e-8 of the other);
+   inside the bands the behaviour is decided by the search on the implementation only. *)
+Theorem C03_tools_euler_range : forall U e, tools_u_to_euler U = Some e -> 0 <= vx e <= 2 * PI /\ 0 <= vy e <= PI /\ 0 <= vz e <= 2 * PI.
+Proof. exact tools_euler_range. Qed.
+Print Assumptions C03_tools_euler_range.
+Theorem C03_tools_euler_inverts : forall U, is_rot U -> not_gimbal U -> generic (m02 U) (- m12 U) -> generic (m20 U) (m21 U) ->
+  exists e, tools_u_to_euler U = Some e /\ tools_euler_to_u (vx e) (vy e) (vz e) = U.
+Proof. exact tools_euler_exact. Qed.
+Print Assumptions C03_tools_euler_inverts.
+Theorem C03_tools_euler_angles_recovered : forall p1 P p2, 0 <= p1 < 2 * PI -> 0 <= p2 < 2 * PI -> 0 < P < PI ->
+  let U := tools_euler_to_u p1 P p2 in
+  not_gimbal U -> generic (m02 U) (- m12 U) -> generic (m20 U) (m21 U) -> tools_u_to_euler U = Some (mkV3 p1 P p2).
+Proof. exact tools_euler_of_angles. Qed.
+Print Assumptions C03_tools_euler_angles_recovered.
